@@ -25,7 +25,7 @@ impl PdiOffset {
     requires self.start_address + bytes <= u32::MAX
     ensures r.start_address == self.start_address + bytes
 @*/
-/*@fn file=src/pdi.rs impl="impl PdiOffset" name=increment_byte_aligned props=C08
+/*@fn file=src/pdi.rs impl="impl PdiOffset" name=increment_byte_aligned props=C08,C13
     requires
         self.start_address + (bits + 7) / 8 <= u32::MAX,       // (any 16-bit bit length: no bound on `bits`)
     ensures r.start_address == self.start_address + (bits as int + 7) / 8      // ceil(bits / 8) bytes
@@ -189,7 +189,7 @@ impl<'a> SubDeviceRef<'a> {
         }),
 @*/
 
-/*@fn file=src/subdevice/configuration.rs impl="impl<S> SubDeviceRef<'_, S>" name=write_fmmu_config props=C08
+/*@fn file=src/subdevice/configuration.rs impl="impl<S> SubDeviceRef<'_, S>" name=write_fmmu_config props=C08,C13
     requires
         fmmu_index < 16,
         old(global_offset).start_address + (sm_bit_len + 7) / 8 <= u32::MAX,
